@@ -672,6 +672,7 @@ func runE2E(rp E2EReplay) (*e2eOut, error) {
 		out.tags = append(out.tags, "e2e:truncated-packet")
 	}
 	out.tags = append(out.tags, fmt.Sprintf("e2e:partitions=%d", len(keys)), fmt.Sprintf("e2e:maxchunk=%d", rp.MaxChunk))
+	out.tags = append(out.tags, inputTags(rp)...)
 	return out, nil
 }
 
@@ -1028,4 +1029,100 @@ func runPos(rp E2EReplay) (*e2eOut, error) {
 	}
 	out.tags = append(out.tags, fmt.Sprintf("pos:maxchunk=%d", rp.MaxChunk))
 	return out, nil
+}
+
+// inputTags names the input classes a history holds (for the distribution in the evidence file)
+func inputTags(rp E2EReplay) []string {
+	set := map[string]bool{}
+	if rp.MaxRec < 4096 {
+		set["in:small-max-record-size"] = true
+	}
+	lower := map[string]string{}
+	for i, rq := range rp.Reqs {
+		set["in:req-"+rq.Kind] = true
+		n := len(rq.Aes) + len(rq.Les)
+		switch {
+		case rq.Kind != "raw" && n == 0:
+			set["in:batch-empty"] = true
+		case n == 1:
+			set["in:batch-of-1"] = true
+		case n >= 17:
+			set["in:batch>=17"] = true
+		}
+		if n > 255 {
+			set["in:batch>255"] = true
+		}
+		if key, ok := normTags(rq.Tags); ok {
+			l := strings.ToLower(key)
+			if k0, seen := lower[l]; seen && k0 != key {
+				set["in:partitions-differ-in-case-only"] = true
+			}
+			lower[l] = key
+		} else if rq.Kind != "raw" {
+			set["in:tags-rejected"] = true
+		}
+		if i > 0 && rq.Kind != "raw" && fmt.Sprintf("%v", rq) == fmt.Sprintf("%v", rp.Reqs[i-1]) && n > 0 {
+			set["in:same-request-twice"] = true
+		}
+		if strings.Count(rq.Flds, "=") > 20 {
+			set["in:fields>20-pairs"] = true
+		}
+		var wf []byte
+		if rq.Kind == "rpc" {
+			if f, err := field.NewFieldsFromKVString(rq.Flds); err == nil {
+				wf = []byte(f)
+			} else {
+				set["in:write-level-fields-rejected"] = true
+			}
+		}
+		type ev struct {
+			ts   int64
+			msg  []byte
+			flds []byte
+		}
+		var evs []ev
+		for _, e := range rq.Aes {
+			if strings.Count(e.Flds, "=") > 20 {
+				set["in:fields>20-pairs"] = true
+			}
+			evs = append(evs, ev{e.Ts, e.Msg, append(append([]byte{}, wf...), []byte(field.Parse(e.Flds))...)})
+		}
+		for _, e := range rq.Les {
+			evs = append(evs, ev{e.Ts, e.Msg, e.Flds})
+		}
+		for k, e := range evs {
+			switch sz := int64(recordSize(e.msg, e.flds)); {
+			case sz == rp.MaxRec:
+				set["in:record=max-record-size"] = true
+			case sz == rp.MaxRec+1:
+				set["in:record=max-record-size+1"] = true
+			case sz == rp.MaxRec-1:
+				set["in:record=max-record-size-1"] = true
+			}
+			switch len(e.msg) {
+			case 0:
+				set["in:message-empty"] = true
+			case 127, 128:
+				set["in:message-127|128"] = true
+			}
+			if e.ts == 9223372036854775807 || e.ts == -9223372036854775808 {
+				set["in:timestamp-int64-end"] = true
+			}
+			if e.ts == 0 || e.ts == -1 {
+				set["in:timestamp-0|-1"] = true
+			}
+			if k > 0 && e.ts == evs[k-1].ts && string(e.msg) == string(evs[k-1].msg) && string(e.flds) == string(evs[k-1].flds) {
+				set["in:same-event-twice"] = true
+			}
+			if k > 0 && e.ts < evs[k-1].ts {
+				set["in:timestamps-not-ascending"] = true
+			}
+		}
+	}
+	var res []string
+	for k := range set {
+		res = append(res, k)
+	}
+	sort.Strings(res)
+	return res
 }
